@@ -39,14 +39,17 @@ def gen_att_scn(rng, sid, faults):
     for _ in range(rng.randint(8, 22)):
         s = rng.choice(sids)
         r = rng.random()
-        if r < 0.50:
+        if r < 0.48:
             ops.append((flt(faults * 2.2 if faults else None), "puba", [s, 100 + len(ops), 1 if rng.random() < 0.2 else 0, atts()]))
-        elif r < 0.60:
+        elif r < 0.56:
             ops.append((flt(), "pub", [s, 100 + len(ops), 1 if rng.random() < 0.2 else 0]))
-        elif r < 0.68:
+        elif r < 0.63:
             ops.append((flt(), "getdata", [s, 0, 0, 0]))
-        elif r < 0.76:
+        elif r < 0.66:
             ops.append((flt(), "getdesc", [s]))
+        elif r < 0.76:
+            # the description in both wire encodings; mostly asked by somebody whose read / recv marks lag behind
+            ops.append((flt(0.05), "getdescp", [s]))
         elif r < 0.79:
             ops.append(("N", "leave", [s, 0]))
         elif r < 0.88:
@@ -128,9 +131,18 @@ def att_monitor(base_monitor, sc, blocks):
     # the 5xx reply is an artefact of emulating the death of the process)
     cut = next((k for k in range(len(blocks)) if link_failed(sc.ops[k], blocks[k])), None)
     n = len(blocks) if cut is None else cut
-    plain = sc.clone([(f, "pub", a[:3]) if kind == "puba" else (f, kind, a) for f, kind, a in sc.ops])
+    plain = sc.clone([(f, "pub", a[:3]) if kind == "puba" else (f, "getdesc", a) if kind == "getdescp" else (f, kind, a) for f, kind, a in sc.ops])
     plain.sessions = sc.sessions
     res += base_monitor(plain, [statelib.View(b) for b in blocks[:n]])
+    # 'the number acknowledged is the number every recipient and every later query shows': in BOTH wire encodings of the frame
+    for k, b in enumerate(blocks):
+        for sid, t in b["frames"]:
+            d = kvs(t)
+            if "pbseq" in d and d["pbseq"] != d.get("seq", "0"):
+                what = "description" if t.startswith("desc ") else "message copy" if t.startswith("data ") else "acknowledgement"
+                res.append(("desc-seq-same-in-every-encoding" if t.startswith("desc ") else "number-same-in-every-encoding", k,
+                            "the %s sent to connection %d shows seq=%s in the JSON encoding and seq=%s in the protobuf encoding (%s)"
+                            % (what, sid, d.get("seq", "0"), d["pbseq"], t)))
     # 'a publish whose save failed consumes no number', on the implementation's own counter: whatever the attachments
     # and whichever store call failed, a publish answered with an error leaves Topic.lastID where it was
     for k in range(n):
@@ -271,6 +283,7 @@ def run_att(ctx, base_monitor):
     # coverage, measured on the implementation's trace
     kinds, outcome = {}, {}
     nops, acks, cuts, failed_then_acked = 0, 0, 0, 0
+    both, lagging = 0, 0
     nt = set()
     for sc in scns:
         sig = []
@@ -281,6 +294,12 @@ def run_att(ctx, base_monitor):
             b = impl[sc.id][k]
             kinds[o[1]] = kinds.get(o[1], 0) + 1
             got_ack = any(t.startswith("ctrl 202 seq") for s, t in b["frames"])
+            for s_, t in b["frames"]:
+                d = kvs(t)
+                if "pbseq" in d:
+                    both += 1
+                    if t.startswith("desc ") and int(d.get("seq", 0)) > 0 and (d.get("recv") != d.get("seq") or d.get("read") != d.get("seq")):
+                        lagging += 1
             acks += 1 if got_ack else 0
             any_ack = any_ack or got_ack
             if o[1] == "puba":
@@ -304,8 +323,9 @@ def run_att(ctx, base_monitor):
             nt.add(hash(tuple(map(repr, sig))))
     ctx.coverage["attachments"] = {
         "evaluations": len(scns), "distinct_nontrivial": len(nt), "operations_executed": nops,
-        "rule": "seeded random histories over one group topic (head as in the topic-history generator: 2-5 users x 1-2 connections, member modes incl. read-less / write-less): sub / {pub extra.attachments=[..]} with 0-3 URLs of three kinds (no file id in the URL / well-formed id without an upload record / uploaded file) / plain pub / get data / get desc / leave / idle unload and re-attach / restart; three quarters of the histories with a failing (F k) or crashing (C k) adapter call k=1..5 on random requests (k=1 TopicUpdateOnMessage, 2 MessageSave, 3 SubsUpdate or FileLinkAttachments, 4 FileLinkAttachments of a reader); non-trivial = at least one acknowledged number; distinct by (ops, replies)",
-        "acknowledged_numbers": acks, "op_kinds": kinds, "attachment_publish_outcomes": outcome,
+        "rule": "seeded random histories over one group topic (head as in the topic-history generator: 2-5 users x 1-2 connections, member modes incl. read-less / write-less): sub / {pub extra.attachments=[..]} with 0-3 URLs of three kinds (no file id in the URL / well-formed id without an upload record / uploaded file) / plain pub / get data / get desc / get desc rendered in both wire encodings (JSON, protobuf) / leave / idle unload and re-attach / restart; three quarters of the histories with a failing (F k) or crashing (C k) adapter call k=1..5 on random requests (k=1 TopicUpdateOnMessage, 2 MessageSave, 3 SubsUpdate or FileLinkAttachments, 4 FileLinkAttachments of a reader); non-trivial = at least one acknowledged number; distinct by (ops, replies)",
+        "acknowledged_numbers": acks, "op_kinds": kinds,
+        "frames_compared_in_both_wire_encodings": both, "descriptions_in_both_encodings_with_read_or_recv_below_seq": lagging, "attachment_publish_outcomes": outcome,
         "failed_attachment_publish_followed_by_an_accepted_publish": failed_then_acked,
         "publishes_refused_at_the_attachment_link_call (the evaluated part of the history ends there)": cuts,
         "correspondence_mismatches": len(mism), "monitor_failures": len(fails), "search_pool": searched, "impl_wall_s": round(t_impl, 1),
